@@ -638,6 +638,83 @@ func init() {
 		exec: func(w *World, st *Step) {}})
 }
 
+func init() {
+	// offedge: the smallest bitmap chunk there is (4097..4100 scattered values, alone in its
+	// bitmap, so that neither size bound has any slack), shifted so that its largest value lands
+	// exactly on the last value of a chunk: the split of the chunk has an empty high half
+	singleChunk := func(w *World, r *Rng, lo, hi int) int {
+		from := r.Intn(len(w.B))
+		for off := 0; off < len(w.B); off++ {
+			sl := (from + off) % len(w.B)
+			if m := w.B[sl].M; m.NumChunks() == 1 {
+				if c := int(m.Card()); c >= lo && c <= hi {
+					return sl
+				}
+			}
+		}
+		return -1
+	}
+	reg(&opDef{name: "offedge", tag: "C16",
+		gen: func(w *World, r *Rng) (Step, bool) {
+			a := w.slot(r)
+			k := w.key(r)
+			steps := []Step{
+				{Op: "clear", S: []int{a}},
+				{Op: "addmany", S: []int{a}, A: []uint64{uint64(k), 0, uint64(5000 + r.Intn(3000)), r.U64()}},
+				{Op: "gen:offedge2"},
+				{Op: "gen:offedge3"},
+			}
+			w.pending = append(w.pending, steps[1:]...)
+			w.probe("offedge-scenario")
+			return steps[0], true
+		},
+		exec: func(w *World, st *Step) {}})
+	reg(&opDef{name: "offedge2", tag: "C16",
+		gen: func(w *World, r *Rng) (Step, bool) {
+			sl := singleChunk(w, r, 4101, 70000)
+			if sl < 0 {
+				return Step{}, false
+			}
+			T := []int{4097, 4098, 4099, 4100, 4096, 4097}[r.Intn(6)]
+			k := w.B[sl].M.Keys()[0]
+			n := 0
+			var cut uint32
+			w.B[sl].M.EachInChunk(k, func(x uint32) bool {
+				n++
+				cut = x
+				return n <= T
+			})
+			return Step{Op: "removerange", S: []int{sl}, A: []uint64{uint64(cut), (uint64(k) + 1) << 16}}, true
+		},
+		exec: func(w *World, st *Step) {}})
+	reg(&opDef{name: "offedge3", tag: "C16",
+		gen: func(w *World, r *Rng) (Step, bool) {
+			sl := singleChunk(w, r, 4090, 4110)
+			if sl < 0 {
+				return Step{}, false
+			}
+			mx, _ := w.B[sl].M.Max()
+			k := int64(mx >> 16)
+			d := 65535 - int64(mx&0xFFFF)
+			if r.Chance(1, 3) {
+				d -= int64(r.Intn(2)) // one short of the edge as well
+			}
+			switch r.Intn(3) {
+			case 0:
+				if k+1 < 0xFFFF {
+					d += 65536
+				}
+			case 1:
+				if k >= 1 {
+					d -= 65536
+				}
+			}
+			dst := (sl + 1 + r.Intn(len(w.B)-1)) % len(w.B)
+			return Step{Op: "addoffset", S: []int{dst, sl}, A: []uint64{uint64(d), 0}}, true
+		},
+		exec: func(w *World, st *Step) {}})
+}
+
 func itoa(n int) string {
 	if n == 0 {
 		return "0"
